@@ -18,12 +18,13 @@ package termunicode
 //@   loop 1 invariant sw_calls(w) >= old(sw_calls(w))
 //@   loop 1 invariant maxVal > 0 && 0 <= param(val) && maxLen <= 1000000 && param(val) <= 9000000000000 && maxVal <= 9000000000000 ==> blocks >= 0 && sw_calls(w) - old(sw_calls(w)) + blocks == fdiv(val * maxLen, maxVal) && val <= maxVal && val == (if param(val) > maxVal then maxVal else param(val))
 
+// (a negative width draws nothing)
 //@ func BarWrite
-//@   requires w != nil && 0 <= maxLen && maxLen <= 1000000 && 0.0 <= val && val <= 1.0
+//@   requires w != nil && -1000000 <= maxLen && maxLen <= 1000000 && 0.0 <= val && val <= 1.0
 //@   modifies ghost sw_calls(w)
-//@   ensures [bounded] sw_calls(w) - old(sw_calls(w)) <= maxLen && sw_calls(w) >= old(sw_calls(w))
-//@   loop 1 invariant 0 <= remainingBlocks && sw_calls(w) >= old(sw_calls(w)) && (sw_calls(w) - old(sw_calls(w))) * 9 + remainingBlocks <= maxLen * 9
-//@   loop 2 invariant sw_calls(w) >= old(sw_calls(w)) && sw_calls(w) - old(sw_calls(w)) + (if blocks > 0 then blocks else 0) <= maxLen
+//@   ensures [bounded] sw_calls(w) - old(sw_calls(w)) <= (if maxLen > 0 then maxLen else 0) && sw_calls(w) >= old(sw_calls(w))
+//@   loop 1 invariant sw_calls(w) >= old(sw_calls(w)) && (maxLen < 0 ==> remainingBlocks <= 0 && sw_calls(w) == old(sw_calls(w))) && (maxLen >= 0 ==> 0 <= remainingBlocks && (sw_calls(w) - old(sw_calls(w))) * 9 + remainingBlocks <= maxLen * 9)
+//@   loop 2 invariant sw_calls(w) >= old(sw_calls(w)) && sw_calls(w) - old(sw_calls(w)) + (if blocks > 0 then blocks else 0) <= (if maxLen > 0 then maxLen else 0)
 
 //@ func BarKey
 //@   requires idx >= 0
